@@ -23,7 +23,7 @@ ASSUMPTIONS = [
     'binning clause judged only for native spacing <= 1/4 of the widest mid-point bin (narrower than the statement, see DESIGN.md); FluxBinner with implied (mid-point) widths',
     'own-grid clause is bit-equality; foreign points must lie between the two neighbouring native values (equal to the end value outside the native range)',
 ]
-REQUIRED = {'opacity:ktables': 0.15, 'grids:tie-for-largest': 0.04, 'obs:constant-R-wide': 0.08, 'grids:multi': 0.35, 'grids:single': 0.15, 'family:emission': 0.2, 'family:transmission': 0.2}
+REQUIRED = {'obs:widest-low': 0.02, 'obs:widest-high': 0.02, 'opacity:ktables': 0.15, 'grids:tie-for-largest': 0.04, 'obs:constant-R-wide': 0.08, 'grids:multi': 0.35, 'grids:single': 0.15, 'family:emission': 0.2, 'family:transmission': 0.2}
 
 
 @st.composite
@@ -48,7 +48,9 @@ def _case(draw):
         # constant-resolving-power observations need a native grid spanning well over a factor two in wavenumber
         w['wn0'] = min(w['wn0'], w['dwn'] * n0 / 4.0)
     return {'world': w, 'family': family, 'kinds': kinds, 'own': own, 'sub': [i0, i1], 'nbins': nb, 'obs': obs,
-            'tp': tp, 'ngauss': draw(S.ints(1, 4))}
+            'tp': tp, 'ngauss': draw(S.ints(1, 4)),
+            # bin centres whose spacing shrinks towards high wavenumbers (a broad band next to fine bins), or grows
+            'obs_layout': draw(S.pick(['auto', 'widest-low', 'auto', 'widest-high', 'auto']))}
 
 
 def strategy(tier):
@@ -179,7 +181,7 @@ def check(case):
                 c0 = native[0] + case['obs'][0] * (span - width * (nb - 1))
                 centres = c0 + width * np.arange(nb)
                 # alternatively constant resolving power: widths grow with wavenumber
-                if case['obs'][1] > 0.4:
+                if case['obs'][1] > 0.4 and case.get('obs_layout', 'auto') == 'auto':
                     c_lo = native[0] + 0.3 * case['obs'][0] * span
                     q = 1.0 + max(4.0 * spacing / c_lo, 0.05 + 0.9 * (case['obs'][1] - 0.4))
                     geo = [c_lo]
@@ -191,6 +193,20 @@ def check(case):
                         out.cls('obs:constant-R')
                         if centres[-1] / centres[0] > 2.2:
                             out.cls('obs:constant-R-wide')
+                lay = case.get('obs_layout', 'auto')
+                if lay != 'auto':
+                    # unequal spacing of the centres: the widest implied bin sits at one end of the observation
+                    gmin = 2.0 * spacing
+                    k_ = 4
+                    gaps = gmin * 2.0 ** np.arange(k_ - 1)                       # 2, 4, 8 native spacings
+                    if lay == 'widest-low':
+                        gaps = gaps[::-1]
+                    tot_ = float(gaps.sum())
+                    if tot_ < 0.8 * span:
+                        c0_ = native[0] + 0.1 * span + case['obs'][0] * (0.8 * span - tot_)
+                        centres = c0_ + np.concatenate([[0.0], np.cumsum(gaps)])
+                        nb = k_
+                        out.cls('obs:' + lay)
                 out.cls('binning-judged')
                 out.applies('binned-restricted==binned-full')
                 b = FluxBinner(centres.copy())
